@@ -33,6 +33,9 @@ def exc_obs(ex: BaseException, base: Path | None = None) -> dict:
         d["line"] = ex.line
     if not d["ide"]:
         d["culprit"] = engine.innermost_pydsdl_frame(ex)
+        if isinstance(ex, RecursionError) or "RecursionError" in d["text"]:
+            # where exactly the stack runs out depends on the depth at entry: keep only the file
+            d["culprit"] = d["culprit"].split(":")[0]
     return d
 
 
